@@ -105,6 +105,15 @@ def check(ctx):
         container_ops(ctx, "C12.a", prep, ty, field, {"append-ordered", "lookup"}, ["append-ordered"], "%s::prepare" % tname)
         container_ops(ctx, "C12.a", start, ty, field, {"first-match-search", "order-preserving-remove", "lookup"},
                       ["first-match-search", "order-preserving-remove"], "%s::start" % tname)
+        # the entry removed is the one the first-match search found: the index given to the removal comes from the search
+        srch = [b for b, t, n, ch in lib.field_method_calls(start, ty, field) if T.classify(n) == "first-match-search"]
+        for b, t, n, ch in lib.field_method_calls(start, ty, field):
+            if T.classify(n) in ("order-preserving-remove", "order-destroying") and len(t["args"]) > 1 and srch:
+                os_ = origins(start, t["args"][1])
+                ok_idx = bool(os_) and all(o[0] == "call" and o[1] in srch for o in os_)
+                ctx.check(ok_idx, "C12.a", "%s::start:claims-the-first-match" % tname, start.loc(b),
+                          "the index removed is the result of the first-match search",
+                          "the index removed from the pending list does not (only) come from the first-match search: %s - a later entry of the same system can be claimed before an earlier one" % lib.origin_str(os_))
         # closures inside start (the search predicate) must not touch the list
         # no other method of the tracker mutates the pending list
         for m in A.methods_of(prog, tname):
@@ -217,6 +226,9 @@ def _dispatch_order(ctx):
     """C12.d: the dispatch loops that turn one sent event into per-listener commands iterate in registration order and
     append at the back (shared with C09.a)"""
     import core, c09
+    import c08
+    np_ = core.adopt(ctx, c08, lambda o: o["rule"] == "C08.e" and "poll:" in o["key"], "C12.e")
+    ctx.floor("C12.e", np_, 1, "shared poll obligation (C08.e): polled reactions are flushed where they are detected, not behind later deliveries")
     n = core.adopt(ctx, c09, lambda o: o["rule"] == "C09.a" and ("iterates-in-registration-order" in o["key"] or "queues-at-back" in o["key"]), "C12.d")
     ctx.floor("C12.d", n, 15, "shared dispatch-order obligations (C09.a)")
     import c02
